@@ -683,6 +683,9 @@ class Interp:
 
         if pyobj is None or isinstance(pyobj, (bool, int, float, str)):
             return self.to_term(pyobj)
+        ext = getattr(self, "externals", None)
+        if ext and id(pyobj) in ext:
+            return ext[id(pyobj)]  # a contract's model of something outside the library (streams, sys.exit, ...)
         b = lib.builtin_for(pyobj)
         if b is not None:
             return b
